@@ -1,5 +1,10 @@
-(* C05 -- listing is faithful (statements grow with Proofs/LexPrint.v). *)
-From BL Require Import Base.Prelude Lang.Token Lang.Lex.
+(* C05 -- listing is faithful.
+   Proved: the listed text of line n, entered again, is line n again (for every n up to 65529 and every token list);
+   reading back the decimal rendering of a number gives the number; a string literal's payload is copied character for
+   character.  NOT proved: that the listed tokens lex back to the same tokens / the same AST (the fixed-point and
+   same-meaning halves).  Those are decided by the C05 monitor on the implementation: exhaustively for all strings over
+   the 25-symbol lexical alphabet up to the tier's length, and on generated lines. *)
+From BL Require Import Base.Prelude Lang.Token Lang.Lex Mach.Listing Proofs.DecN Proofs.ListNumber.
 Local Open Scope N_scope.
 
 (* a string literal's payload is copied from the source character for character, up to the closing quote *)
@@ -16,3 +21,16 @@ Proof.
   exact (G []).
 Qed.
 Print Assumptions C05_string_payload.
+
+Theorem C05_listed_line_keeps_number : forall n toks, n <= 65529 ->
+  exists toks', lex (line_to_string (Some n, toks)) = Ok (Some n, toks').
+Proof. exact listed_line_keeps_number. Qed.
+Print Assumptions C05_listed_line_keeps_number.
+
+Theorem C05_line_number_prefix : forall n body, n <= 65529 -> split_line_number (dec_of_N n ++ 32 :: body) = (Some n, body).
+Proof. exact relist_line_number. Qed.
+Print Assumptions C05_line_number_prefix.
+
+Theorem C05_decimal_reads_back : forall n, parse_udec (dec_of_N n) = Some n.
+Proof. exact parse_dec_of_N. Qed.
+Print Assumptions C05_decimal_reads_back.
